@@ -165,17 +165,25 @@ def _pmc_havoc_list(I, S):
     return o
 
 
+def _pmc_havoc_self(I, S):
+    """the loop body moves the cutoff (through the single update-and-predict step): after an unknown number of earlier
+    iterations it is an unknown time point, so only the restoring code after the loop can establish `cutoff-restored`"""
+    obj = S.self
+    obj.attrs["_cutoff"] = I.ctx.fresh_int("cutoff_after_earlier_iterations")
+    return obj
+
+
 contract(f"{SK}::_format_moving_cutoff_predictions", "C10", assumed=True,
          returns=lambda A: Opaque("formatted moving-cutoff predictions"),
          notes=["ASSUMED: pandas concat / DataFrame(...).T of the collected forecasts with the cutoffs as column labels"])
 
-contract(f"{SK}::_SktimeForecaster._predict_moving_cutoff", "C10", cases=["sww", "nosww"], inputs=_pmc_inputs,
+contract(f"{SK}::_SktimeForecaster._predict_moving_cutoff", "C10,C03", cases=["sww", "nosww"], inputs=_pmc_inputs,
          pre=lambda A: valid_params(A.cv),
          raises=[("ValueError", lambda A: ws_rejects(NS(self=A.cv, y=A.y.index)))],
          ensures=[("cutoff-restored", lambda A, r: Eq(A.self.attrs["_cutoff"], A.self.ghost_cutoff0))],
          on_raise=[("cutoff-restored", lambda A: Eq(A.self.attrs["_cutoff"], A.self.ghost_cutoff0))],
          invariants={0: lambda S: True}, events={0: _pmc_events},
-         loop_havoc={0: {"y_preds": _pmc_havoc_list, "cutoffs": _pmc_havoc_list}},
+         loop_havoc={0: {"y_preds": _pmc_havoc_list, "cutoffs": _pmc_havoc_list, "self": _pmc_havoc_self}},
          notes=["_format_moving_cutoff_predictions (pandas concat / DataFrame of the collected forecasts) is assumed: "
                 "labelling of the columns by the cutoffs is checked by the bounded tier only"])
 
